@@ -16,7 +16,7 @@ UNIT = dict(
         "Fallback::call@Service": dict(rules=[
             ("R4",), ("R3",),
             ("sub", "R10-predicate", r"config\s*\.\s*handle_predicate\s*\.\s*as_ref\(\)\s*\.\s*map\(\s*\|p\|\s*p\(&error\)\s*\)\s*\.\s*unwrap_or\(true\)",
-             "(match &config.handle_predicate { Some(p) => p.vx_call(&error), None => true })", 1),
+             "(match &config.handle_predicate { Some(p) => p.vx_call(&error), None => true })", -1),
             ("sub", "R6-closure-call", r"\bf\(\)", "f.vx_call(Tracked(tr))", 1),
             ("sub", "R6-closure-call", r"\bf\(&error\)", "f.vx_call(&error, Tracked(tr))", 1),
             ("sub", "R6-closure-call", r"\bf\(&req_clone, &error\)", "f.vx_call(&req_clone, &error, Tracked(tr))", 1),
